@@ -99,6 +99,8 @@ pub enum Op {
     RewriteSameLength(&'static str),
     TouchSameContent(&'static str),
     ChangeContentRestoreMtime(&'static str),
+    /// different content carrying an *older* modification time (restored backup, `cp -p`, `tar x`)
+    RewriteOlderMtime(&'static str),
     ChangeByteAt(&'static str, usize),
     Append(&'static str),
     Truncate(&'static str),
@@ -120,6 +122,8 @@ pub fn ops_for(l: &Layout) -> Vec<Op> {
             RewriteSameLength("src/a.txt"),
             TouchSameContent("src/a.txt"),
             ChangeContentRestoreMtime("src/a.txt"),
+            RewriteOlderMtime("src/a.txt"),
+            RewriteOlderMtime("src/sub/c.txt"),
             Append("src/a.txt"),
             Truncate("src/a.txt"),
             Delete("src/a.txt"),
@@ -144,13 +148,13 @@ pub fn ops_for(l: &Layout) -> Vec<Op> {
         v.extend(vec![ChangeByteAt("big.bin", 5), ChangeByteAt("big.bin", 1500), ChangeByteAt("big.bin", 9000), ChangeByteAt("big.bin", 23999), TouchSameContent("big.bin"), Append("big.bin")]);
     }
     if !l.writes.is_empty() {
-        v.extend(vec![RewriteSameLength("out/o.txt"), Delete("out/o.txt"), TouchSameContent("out/o.txt"), Create("out/extra.txt")]);
+        v.extend(vec![RewriteSameLength("out/o.txt"), Delete("out/o.txt"), TouchSameContent("out/o.txt"), Create("out/extra.txt"), RewriteOlderMtime("out/o.txt")]);
     }
     if has("pout/x.o") {
-        v.extend(vec![RewriteSameLength("pout/x.o"), Create("pout/new.o"), Create("pout/new.txt"), Delete("pout/x.o"), RewriteSameLength("pout/y.txt"), RewriteSameLength("pv.txt"), TouchSameContent("pout/x.o")]);
+        v.extend(vec![RewriteSameLength("pout/x.o"), RewriteOlderMtime("pout/x.o"), Create("pout/new.o"), Create("pout/new.txt"), Delete("pout/x.o"), RewriteSameLength("pout/y.txt"), RewriteSameLength("pv.txt"), TouchSameContent("pout/x.o")]);
     }
     if has("libdir/src/a.txt") {
-        v.extend(vec![RewriteSameLength("libdir/src/a.txt"), Create("libdir/src/new.txt"), Create("libdir/src/new.bin"), Delete("libdir/src/a.txt"), RewriteSameLength("libdir/src/z.bin"), RewriteSameLength("libdir/v.txt")]);
+        v.extend(vec![RewriteSameLength("libdir/src/a.txt"), RewriteOlderMtime("libdir/src/a.txt"), Create("libdir/src/new.txt"), Create("libdir/src/new.bin"), Delete("libdir/src/a.txt"), RewriteSameLength("libdir/src/z.bin"), RewriteSameLength("libdir/v.txt")]);
     }
     if has("pa/v.txt") {
         v.extend(vec![RewriteSameLength("pa/v.txt"), RewriteSameLength("pb/v.txt"), TouchSameContent("pa/v.txt")]);
@@ -206,6 +210,18 @@ pub fn apply_op(root: &Path, op: &Op, rec: &Path) -> bool {
                     let new: Vec<u8> = old.iter().map(|b| b.wrapping_add(1)).collect();
                     write(&p, &new);
                     set_mtime(&p, m);
+                    true
+                }
+                _ => false,
+            }
+        }
+        RewriteOlderMtime(f) => {
+            let p = root.join(f);
+            match (std::fs::read(&p), get_mtime(&p)) {
+                (Ok(old), Some(m)) if p.is_file() => {
+                    let new: Vec<u8> = old.iter().map(|b| if *b == b'q' { b'r' } else { b'q' }).collect();
+                    write(&p, &new);
+                    set_mtime(&p, m - 1000);
                     true
                 }
                 _ => false,
@@ -700,6 +716,7 @@ pub fn check_c13_behaviour(rep: &mut Report) {
     let outs = crate::explore::par_map(&jobs, 16, |(l, a, b)| {
         // only unambiguous operations (content and mtime change together, or nothing changes)
         let ops: Vec<Op> = ops_for(l).into_iter().filter(|o| !matches!(o, Op::TouchSameContent(_) | Op::ChangeContentRestoreMtime(_) | Op::DeleteRecord | Op::TruncateRecord)).collect();
+        // (RewriteOlderMtime changes content and mtime together, so it stays in)
         // this oracle checks both directions: skipped => allowed, untouched => skipped
         run_histories(l, &ops, *a, *b, Oracle::RerunIffChanged, "C13")
     });
